@@ -156,7 +156,7 @@ BIdx(a) == IF a.i < 0 THEN 2000000000 ELSE a.i    \* i = -1 encodes usize::MAX (
 ApplyB(b, op) == \* layer 2
   CASE op.ev = "push"  -> BPush(b, op.a.v)
     [] op.ev = "pop"   -> BPop(b)
-    [] op.ev \in {"views", "clone"} -> [ret |-> Unit, b |-> b]   \* a clone is the same queue (same raw parts)
+    [] op.ev \in {"views", "clone", "fmt"} -> [ret |-> Unit, b |-> b]   \* a clone is the same queue (same raw parts)
     [] op.ev = "get"   -> [ret |-> BGet(b, BIdx(op.a)), b |-> b]
     [] op.ev = "index" -> [ret |-> IF BIdx(op.a) >= b.len THEN Panic ELSE BGet(b, BIdx(op.a)), b |-> b]
     [] op.ev = "get_mut" -> IF BIdx(op.a) >= b.len THEN [ret |-> None, b |-> b]
@@ -178,7 +178,7 @@ ApplyB(b, op) == \* layer 2
 IdealB(q, cap, op) == \* layer 1
   CASE op.ev = "push"  -> QPush(q, cap, op.a.v)
     [] op.ev = "pop"   -> QPop(q)
-    [] op.ev \in {"views", "clone"} -> [ret |-> Unit, q |-> q]
+    [] op.ev \in {"views", "clone", "fmt"} -> [ret |-> Unit, q |-> q]
     [] op.ev = "get"   -> [ret |-> QGet(q, BIdx(op.a)), q |-> q]
     [] op.ev = "index" -> [ret |-> IF BIdx(op.a) >= Len(q) THEN Panic ELSE QGet(q, BIdx(op.a)), q |-> q]
     [] op.ev = "get_mut" -> IF BIdx(op.a) >= Len(q) THEN [ret |-> None, q |-> q]
@@ -209,7 +209,7 @@ OpsF(f) ==
 ApplyF(f, op) ==
   LET n == FLen(f) IN
   CASE op.ev = "push"  -> LET r == FPush(f, op.a.v) IN [ret |-> Some(r.ret), f |-> r.f]
-    [] op.ev \in {"views", "clone"} -> [ret |-> Unit, f |-> f]
+    [] op.ev \in {"views", "clone", "fmt"} -> [ret |-> Unit, f |-> f]
     [] op.ev \in {"get", "index"} -> [ret |-> Some(FGet(f, IdxVal(op.a, n))), f |-> f]
     [] op.ev \in {"get_mut", "index_mut"} ->
          [ret |-> Some(FGet(f, IdxVal(op.a, n))), f |-> FSetAt(f, IdxVal(op.a, n), op.a.v)]
@@ -223,7 +223,7 @@ ApplyF(f, op) ==
 IdealF(q, first, op) == \* set_first names an absolute slot, so layer 1 needs `first` for it
   LET n == Len(q) IN
   CASE op.ev = "push"  -> LET r == DPush(q, op.a.v) IN [ret |-> Some(r.ret), q |-> r.q]
-    [] op.ev \in {"views", "clone"} -> [ret |-> Unit, q |-> q]
+    [] op.ev \in {"views", "clone", "fmt"} -> [ret |-> Unit, q |-> q]
     [] op.ev \in {"get", "index"} -> [ret |-> Some(DGet(q, IdxVal(op.a, n))), q |-> q]
     [] op.ev \in {"get_mut", "index_mut"} ->
          [ret |-> Some(DGet(q, IdxVal(op.a, n))), q |-> DSet(q, IdxVal(op.a, n), op.a.v)]
